@@ -137,7 +137,7 @@ def determinism():
                 cmd = [binary, "run", "--prop", prop, "--engine", part["engine"], "--seed", "424242", "--start", str(start), "--runs", "500",
                        "--replay-dir", "/tmp/selftest-replays", "--digests"]
                 split += [l for l in sh(cmd).stdout.splitlines() if l.startswith("DIGEST ")]
-            same = outs[0] == outs[1] == split and len(outs[0]) == 1500
+            same = outs[0] == outs[1] == split and len(outs[0]) >= 1500
             print(prop, part["engine"], "deterministic" if same else "DIVERGED", len(outs[0]), flush=True)
             bad += 0 if same else 1
     return 2 if bad else 0
